@@ -109,3 +109,36 @@ def margin_ok(can_be_yielded, S, E, c, fs, fe, gs, ge, site_m, site_g):
     if can_be_yielded(m, None, fe):
         return False
     return True
+
+
+class SpanFrag:
+    """minimal fragment for the REAL Molecule._add_fragment: only the span matters"""
+    def __init__(self, start, end, umi='ACG'):
+        self.span = ('chr1', start, end)
+        self.match_hash = ('h',)
+        self.strand = False
+        self.umi = umi
+        self.umi_hamming_distance = 0
+        self.sample = 'cell'
+        self.dup = False
+
+    def get_span(self):
+        return self.span
+
+    def set_duplicate(self, v):
+        self.dup = v
+
+
+def span_growth_clause(Molecule, spans, c, probes):
+    """Real Molecule: after every added fragment, can_be_yielded(chrom, P) must reflect the CURRENT span."""
+    m = Molecule(cache_size=c)
+    S = E = None
+    for i, (s, e) in enumerate(spans):
+        m._add_fragment(SpanFrag(s, e))
+        S = s if S is None or s < S else S
+        E = e if E is None or e > E else E
+        for P in probes:
+            want = (2 * P < 2 * S - c) or (2 * P > 2 * E + c)
+            if bool(m.can_be_yielded('chr1', P)) != want:
+                return 'stale_or_wrong_window.after_fragment_%d' % i
+    return None
